@@ -12,27 +12,32 @@
    The model state is the bind set (names) and whether the socket is still open; "settled" observations
    were polled by the driver for up to 10 s.                                                     *)
 EXTENDS TraceCommon
-VARIABLES l, scen, stype, viol, bound, ever, open, how, bad, hung, good, tag, ports
-tvars == <<l, scen, stype, viol, bound, ever, open, how, bad, hung, good, tag, ports>>
+VARIABLES l, scen, stype, viol, bound, ever, open, how, bad, hung, good, tag, ports, sab, rep
+\* sab: endpoints whose socket file somebody replaced by a directory (its removal must fail); rep: failures close() / unbind reported
+tvars == <<l, scen, stype, viol, bound, ever, open, how, bad, hung, good, tag, ports, sab, rep>>
 E == Rec[l]
 Flag(code) == Report(scen, code, l) /\ viol' = viol \cup {code}
 NoFlag == UNCHANGED viol
 Step(evname) == l <= NRec /\ E.ev = evname /\ l' = l + 1
-Same == UNCHANGED <<scen, stype, bound, ever, open, how, bad, hung, good, tag, ports>>
-TInit == l = 1 /\ scen = 0 /\ stype = "none" /\ viol = {} /\ bound = {} /\ ever = {} /\ open = TRUE /\ how = "open" /\ bad = 0 /\ hung = {} /\ good = {} /\ tag = "" /\ ports = EmptyMap
+Same == UNCHANGED <<scen, stype, bound, ever, open, how, bad, hung, good, tag, ports, sab, rep>>
+TInit == l = 1 /\ scen = 0 /\ stype = "none" /\ viol = {} /\ bound = {} /\ ever = {} /\ open = TRUE /\ how = "open" /\ bad = 0 /\ hung = {} /\ good = {} /\ tag = "" /\ ports = EmptyMap /\ sab = {} /\ rep = 0
 TReset == Step("reset") /\ scen' = E.scen /\ stype' = E.sock /\ bound' = {} /\ ever' = {} /\ open' = TRUE /\ how' = "open" /\ bad' = 0 /\ hung' = {} /\ good' = {}
-          /\ tag' = Fld(E, "tag", "") /\ ports' = EmptyMap /\ NoFlag
+          /\ tag' = Fld(E, "tag", "") /\ ports' = EmptyMap /\ sab' = {} /\ rep' = 0 /\ NoFlag
 IsTcp(req) == \E i \in {1} : TRUE   \* (placeholder: transport is read off the port field)
-TBind == Step("bind") /\ UNCHANGED <<scen, stype, open, how, bad, hung, good, tag>> /\
+TBind == Step("bind") /\ UNCHANGED <<scen, stype, open, how, bad, hung, good, tag, sab, rep>> /\
    IF E.res = "ok" THEN
         bound' = bound \cup {E.name} /\ ever' = ever \cup {E.name} /\ ports' = Put(ports, E.name, E.port)
         /\ IF E.port = 0 THEN Flag("C18/bind-port-zero") ELSE NoFlag
    ELSE UNCHANGED <<bound, ever, ports>> /\ Flag("C18/bind-failed-unexpectedly")
 \* a duplicate bind is expected to fail; whatever it returns, nothing may change (checked by the following binds / probe events)
 TBindDup == Step("bind_dup") /\ Same /\ NoFlag
-TUnbind == Step("unbind") /\ UNCHANGED <<scen, stype, ever, open, how, bad, hung, good, tag, ports>> /\
-   IF E.name \in bound THEN (IF E.res = "ok" THEN bound' = bound \ {E.name} /\ NoFlag ELSE UNCHANGED bound /\ Flag("C18/unbind-failed"))
-   ELSE UNCHANGED bound /\ (IF E.res = "err:NoSuchBind" THEN NoFlag ELSE Flag("C18/unknown-not-nosuchbind"))
+TUnbind == Step("unbind") /\ UNCHANGED <<scen, stype, ever, open, how, bad, hung, good, tag, ports, sab>> /\
+   IF E.name \in bound THEN
+        (IF E.res = "ok" THEN bound' = bound \ {E.name} /\ UNCHANGED rep /\ (IF E.name \in sab THEN Flag("C17/failure-not-reported:unbind") ELSE NoFlag)
+         \* the file could not be removed: reporting it is demanded, the listener is gone all the same
+         ELSE IF E.name \in sab THEN bound' = bound \ {E.name} /\ rep' = rep + 1 /\ NoFlag
+         ELSE UNCHANGED <<bound, rep>> /\ Flag("C18/unbind-failed"))
+   ELSE UNCHANGED <<bound, rep>> /\ (IF E.res = "err:NoSuchBind" THEN NoFlag ELSE Flag("C18/unknown-not-nosuchbind"))
 TUnbindUnknown == Step("unbind_unknown") /\ Same /\ (IF E.res = "err:NoSuchBind" THEN NoFlag ELSE Flag("C18/unknown-not-nosuchbind"))
 TBinds == Step("binds") /\ Same /\
    IF SeqToSet(E.names) # bound \/ E.unknown # 0 THEN Flag("C18/binds-set-mismatch") ELSE NoFlag
@@ -52,17 +57,18 @@ TProbe == Step("probe") /\ Same /\
          ELSE IF ~open THEN Flag(IF how = "close" THEN "C17/still-accepting-after-close" ELSE "C17/not-settled-after-drop")
          ELSE Flag("C18/unbind-left-listener"))
 TIpc == Step("ipc_exists") /\ Same /\
-   IF E.name \in bound /\ open THEN (IF E.exists THEN NoFlag ELSE Flag("C18/ipc-file-missing-while-bound"))
+   IF E.name \in sab THEN NoFlag                                             \* the path is somebody's directory now: nothing to demand of it
+   ELSE IF E.name \in bound /\ open THEN (IF E.exists THEN NoFlag ELSE Flag("C18/ipc-file-missing-while-bound"))
    ELSE IF E.exists THEN Flag(IF open THEN "C18/unbind-left-listener" ELSE "C17/ipc-file-remains") ELSE NoFlag
 \* raw clients: good ones must complete the handshake whatever else is going on
-TClient == Step("client") /\ UNCHANGED <<scen, stype, bound, ever, open, how, tag, ports>> /\
+TClient == Step("client") /\ UNCHANGED <<scen, stype, bound, ever, open, how, tag, ports, sab, rep>> /\
    IF E.kind = "good" THEN
         (IF E.res = "handshaken" THEN good' = good \cup {E.k} /\ UNCHANGED <<bad, hung>> /\ NoFlag
          ELSE UNCHANGED <<good, bad, hung>> /\ Flag(IF hung # {} \/ bad > 0 THEN "C20/good-client-blocked" ELSE "C18/bind-unconnectable-or-stopped"))
    ELSE IF E.res = "stopped" THEN
         good' = good /\ (IF E.kind = "close" THEN bad' = bad + 1 /\ UNCHANGED hung ELSE hung' = hung \cup {E.k} /\ UNCHANGED bad) /\ NoFlag
    ELSE UNCHANGED <<good, bad, hung>> /\ NoFlag
-TConnectOut == Step("connect_out") /\ UNCHANGED <<scen, stype, bound, ever, open, how, bad, hung, tag, ports>> /\
+TConnectOut == Step("connect_out") /\ UNCHANGED <<scen, stype, bound, ever, open, how, bad, hung, tag, ports, sab, rep>> /\
    IF E.res = "ok" /\ E.peer = "handshaken" THEN good' = good \cup {E.k} /\ NoFlag ELSE UNCHANGED good /\ Flag("C17/harness-connect-out-failed")
 TExchange == Step("exchange") /\ Same /\
    IF E.res = "ok" THEN NoFlag
@@ -72,9 +78,13 @@ TMonitor == Step("monitor") /\ Same /\
    IF E.accept_failed < bad THEN Flag("C20/no-accept-failed-event")
    ELSE IF E.accepted < Cardinality(good) THEN Flag("C20/peer-set-changed")
    ELSE NoFlag
-TClose == Step("close") /\ UNCHANGED <<scen, stype, bound, ever, bad, hung, good, tag, ports>> /\ open' = FALSE /\ how' = "close" /\
-   IF E.res = "returned" THEN NoFlag ELSE Flag("C17/close-did-not-return")
-TDrop == Step("drop") /\ UNCHANGED <<scen, stype, bound, ever, bad, hung, good, tag, ports>> /\ open' = FALSE /\ how' = "drop" /\ NoFlag
+TClose == Step("close") /\ UNCHANGED <<scen, stype, bound, ever, bad, hung, good, tag, ports, sab>> /\ open' = FALSE /\ how' = "close" /\
+   rep' = rep + Fld(E, "errors", 0) /\
+   IF E.res # "returned" THEN Flag("C17/close-did-not-return")
+   \* close() reports each failure it met: one per endpoint whose file it could not remove
+   ELSE IF Fld(E, "errors", 0) < Cardinality(sab \cap bound) THEN Flag("C17/failure-not-reported:close")
+   ELSE NoFlag
+TDrop == Step("drop") /\ UNCHANGED <<scen, stype, bound, ever, bad, hung, good, tag, ports, sab, rep>> /\ open' = FALSE /\ how' = "drop" /\ NoFlag
 \* after close / drop every connected peer observes end-of-stream
 TEof == Step("check_eof") /\ Same /\
    IF open \/ E.eof THEN NoFlag
@@ -94,9 +104,11 @@ THarness == Step("harness_error") /\ Same /\ Flag("harness/script-error")
 TEnd == Step("end") /\ Same /\ NoFlag
 TSkipped == Step("skipped_rest") /\ Same /\ NoFlag
 TInstallMonitor == Step("install_monitor") /\ Same /\ NoFlag      \* the monitor stream asked for (again) after a bind: what follows is demanded of it all the same
-TBurst == Step("reset_burst") /\ UNCHANGED <<scen, stype, bound, ever, open, how, hung, good, tag, ports>> /\ bad' = bad /\ NoFlag
+TBurst == Step("reset_burst") /\ UNCHANGED <<scen, stype, bound, ever, open, how, hung, good, tag, ports, sab, rep>> /\ bad' = bad /\ NoFlag
+TSabotage == Step("ipc_sabotage") /\ UNCHANGED <<scen, stype, bound, ever, open, how, bad, hung, good, tag, ports, rep>> /\ NoFlag
+             /\ sab' = IF E.ok THEN sab \cup {E.name} ELSE sab
 TNext == TReset \/ TBind \/ TBindDup \/ TUnbind \/ TUnbindUnknown \/ TBinds \/ TProbe \/ TIpc \/ TClient \/ TConnectOut \/ TExchange \/ TMonitor \/ TClose \/ TDrop \/ TEof
-         \/ TTasks \/ TFds \/ TSkipped \/ TInstallMonitor \/ TBurst \/ TPanic \/ TTimeout \/ THarness \/ TEnd
+         \/ TTasks \/ TFds \/ TSkipped \/ TInstallMonitor \/ TBurst \/ TSabotage \/ TPanic \/ TTimeout \/ THarness \/ TEnd
 TSpec == TInit /\ [][TNext]_tvars
 Accepted == Consumed
 =============================================================================
